@@ -16,10 +16,27 @@ static int flip(int c) { return c == G_PINF ? G_NINF : (c == G_NINF ? G_PINF : c
 static bool sinf(int c) { return c == G_PINF || c == G_NINF; }
 static int bad = 0;
 static void expect(bool ok, const std::string &what) { if (!ok) { std::cout << "REPRODUCED: " << what << "\n"; bad = 1; } }
+// clause "a finite float op a finite number is never exact": every pair (float, other kind) x operation on representative values
+static int float_ops(bool kf)
+{
+    std::vector<RCP<const Number>> floats = {real_double(2.0), complex_double(std::complex<double>(1.0, 2.0))};
+    std::vector<RCP<const Number>> others = {integer(0), integer(3), Rational::from_two_ints(1, 2), Complex::from_two_nums(*integer(1), *integer(2)), real_double(0.5), complex_double(std::complex<double>(0.5, 1.0))};
+    const char *names[] = {"add", "sub", "mul", "div"};
+    for (auto &f : floats) for (auto &o : others) for (int op = 0; op < 4; op++) for (int rev = 0; rev < 2; rev++) {
+        RCP<const Number> l = rev ? o : f, r = rev ? f : o, res;
+        bool known = is_a<RealDouble>(*f) && op == 2 && is_a<Integer>(*o) && o->is_zero();       // the KNOWN-FINDING class
+        if (known && !kf) continue;
+        try { res = op == 0 ? l->add(*r) : (op == 1 ? l->sub(*r) : (op == 2 ? l->mul(*r) : l->div(*r))); } catch (SymEngineException &e) { continue; }
+        if (!is_a<RealDouble>(*res) && !is_a<ComplexDouble>(*res)) { std::cout << l->__str__() << " ." << names[op] << "( " << r->__str__() << " ) = " << res->__str__() << "\nREPRODUCED: a finite float combined with a finite number gives an exact number\n"; return 1; }
+    }
+    std::cout << "not reproduced on the representative pairs\n";
+    return 0;
+}
 int main(int argc, char **argv)
 {
     if (argc < 2) return 3;
     Args a = parse_args(argc, argv);
+    if (std::string(argv[1]).find("float_op_finite") != std::string::npos) return float_ops(has(a, "kf"));
     RCP<const Basic> xb = ghost_obj(a, "a"), yb = ghost_obj(a, "b");
     if (!is_a_Number(*xb) || !is_a_Number(*yb)) return 3;
     RCP<const Number> x = rcp_static_cast<const Number>(xb), y = rcp_static_cast<const Number>(yb);
